@@ -300,7 +300,7 @@ def rule_path_bases(ck: Check, repo: Repo, rid: str) -> None:
     (root-relative): a set whose members are joined with the root (or a query that is not made relative) compares
     unequal for every working directory but one, and ignored / submodule files silently become covered files."""
     r = ck.rule(rid, "VCS membership tests compare paths of the same base (query made root-relative; collected sets root-relative)")
-    REL, ROOTED, UNKNOWN = "root-relative", "joined-with-root", "unknown"
+    REL, ROOTED, UNKNOWN, GIVEN = "root-relative", "joined-with-root", "unknown", "as-given-by-the-caller"
     n_sites = 0
     for cq, cls in sorted(repo.classes.items()):
         if not cq.startswith("reuse.vcs.VCSStrategy"):
@@ -322,6 +322,8 @@ def rule_path_bases(ck: Check, repo: Repo, rid: str) -> None:
                         return ROOTED
                     if isinstance(a, ast.BinOp):
                         return elt_base(a, fn)
+                    if isinstance(a, ast.Name) and a.id in {x.arg for x in fn.args.args}:
+                        return GIVEN  # the queried path itself: absolute or relative to the working directory
                     return REL  # a path string as printed by the VCS (relative to the root: cwd=self.root)
                 if isinstance(e.func, ast.Attribute) and e.func.attr in ("resolve", "absolute", "expanduser"):
                     return elt_base(e.func.value, fn)
@@ -345,6 +347,10 @@ def rule_path_bases(ck: Check, repo: Repo, rid: str) -> None:
                 d = single_assign_value(fn, e.id)
                 if d is not None:
                     return elt_base(d, fn)
+                if e.id in {x.arg for x in fn.args.args} and e.id != "self":
+                    # a parameter that is re-bound once (`path = relative_from_root(path, self.root)`) was handled
+                    # above; a bare parameter is whatever the caller passed
+                    return GIVEN
                 # loop / comprehension variable over a collected set
                 for n in ast.walk(fn):
                     gens = n.generators if isinstance(n, (ast.GeneratorExp, ast.ListComp, ast.SetComp)) else []
@@ -519,6 +525,21 @@ def check_forward(r, repo: Repo, caller: str, callee_text: str, callee_def: str,
                             f"parameter {p} of {callee_text} must receive {expected}, got {got}", repo.loc(c))
 
 
+def discovery_forwarding(r, repo: Repo) -> None:
+    """The REUSE.toml files of a project are discovered with the SAME coverage options as its files (a REUSE.toml in a
+    submodule / Meson subproject counts exactly when that directory's files do)."""
+    P = "reuse.project.Project"
+    same = {"include_submodules": "include_submodules", "include_meson_subprojects": "include_meson_subprojects",
+            "vcs_strategy": "vcs_strategy"}
+    check_forward(r, repo, "reuse.global_licensing.NestedReuseTOML.find_reuse_tomls", "iter_files",
+                  f"{CF}.iter_files", {**same, "include_reuse_tomls": "True", "subset_files": "<default>"},
+                  skip_self=False)
+    check_forward(r, repo, f"{P}.find_global_licensing", "find_reuse_tomls",
+                  "reuse.global_licensing.NestedReuseTOML.find_reuse_tomls", same)
+    check_forward(r, repo, f"{P}.from_directory", "find_global_licensing", f"{P}.find_global_licensing", same)
+
+
+
 def rule_forwarding(ck: Check, repo: Repo) -> None:
     r = ck.rule("R4", "configuration flags are forwarded unchanged along the file-enumeration chain")
     P = "reuse.project.Project"
@@ -533,14 +554,7 @@ def rule_forwarding(ck: Check, repo: Repo) -> None:
         want["include_reuse_tomls"] = "<default>"
         want["subset_files"] = "files" if m == "subset_files" else "<default>"
         check_forward(r, repo, f"{P}.{m}", "iter_files", f"{CF}.iter_files", want, skip_self=False)
-    same = {"include_submodules": "include_submodules", "include_meson_subprojects": "include_meson_subprojects",
-            "vcs_strategy": "vcs_strategy"}
-    check_forward(r, repo, "reuse.global_licensing.NestedReuseTOML.find_reuse_tomls", "iter_files",
-                  f"{CF}.iter_files", {**same, "include_reuse_tomls": "True", "subset_files": "<default>"},
-                  skip_self=False)
-    check_forward(r, repo, f"{P}.find_global_licensing", "find_reuse_tomls",
-                  "reuse.global_licensing.NestedReuseTOML.find_reuse_tomls", same)
-    check_forward(r, repo, f"{P}.from_directory", "find_global_licensing", f"{P}.find_global_licensing", same)
+    discovery_forwarding(r, repo)
     check_forward(r, repo, "reuse.cli.common.ClickObj.project", "from_directory", f"{P}.from_directory",
                   {"include_submodules": "self.include_submodules",
                    "include_meson_subprojects": "self.include_meson_subprojects"})
